@@ -69,29 +69,46 @@ Proof.
 Qed.
 
 (** ** the boolean decider of the whole property is sound and complete for the declarative one *)
-Lemma phase_okb_spec : forall i p, phase_okb i p = true <->
-  (agree (pi_accepted p) (pi_help_struct p) /\
-   forall n, In n (pi_accepted p) -> has_successful_run (inv_requests i) (request_for_instruction (pi_name p) n)).
+Lemma mode_okb_spec : forall documented m, mode_okb documented m = true <-> mode_ok documented m.
 Proof.
-  intros i p. unfold phase_okb. rewrite andb_true_iff, agreeb_agree, forallb_forall.
-  split; intros [H1 H2]; (split; [exact H1|]); intros n Hn; apply has_successful_runb_spec; apply H2; exact Hn.
+  intros documented m. unfold mode_okb, mode_ok. rewrite andb_true_iff, forallb_forall, subsetb_spec.
+  split; intros [H1 H2]; (split; [|exact H2]).
+  - intros n Hn. specialize (H1 n Hn). apply Bool.eqb_prop in H1. rewrite <- !mem_In. rewrite H1. reflexivity.
+  - intros n Hn. specialize (H1 n Hn). rewrite <- !mem_In in H1.
+    destruct (mem n (mo_accepted m)), (mem n documented); try reflexivity; exfalso.
+    + assert (F : false = true) by (apply H1; reflexivity). discriminate.
+    + assert (F : false = true) by (apply H1; reflexivity). discriminate.
 Qed.
 
-Lemma entity_okb_spec : forall i e, entity_okb i e = true <->
-  (agree (ei_accepted e) (ei_help_struct e) /\
-   forall n, In n (ei_accepted e) -> has_successful_run (inv_requests i) (request_for_entity (ei_type e) n)).
+Lemma modes_okb_spec : forall documented ms,
+  forallb (mode_okb documented) ms = true <-> (forall m, In m ms -> mode_ok documented m).
 Proof.
-  intros i e. unfold entity_okb. rewrite andb_true_iff, agreeb_agree, forallb_forall.
-  split; intros [H1 H2]; (split; [exact H1|]); intros n Hn; apply has_successful_runb_spec; apply H2; exact Hn.
+  intros documented ms. rewrite forallb_forall. split; intros H m Hm; apply mode_okb_spec; apply H; exact Hm.
 Qed.
 
-Lemma suite_okb_spec : forall i s, suite_okb i s = true <->
-  (agree (si_accepted s) (suite_documented i s) /\
-   forall n, In n (si_accepted s) ->
-     has_successful_run (inv_requests i) (request_for_suite_instruction (inv_kw i) (si_name s) n) \/
-     exists ph, In ph (si_corresponds s) /\ has_successful_run (inv_requests i) (request_for_instruction ph n)).
+Lemma phase_okb_spec : forall i p, phase_okb i p = true <-> phase_ok i p.
 Proof.
-  intros i s. unfold suite_okb. rewrite andb_true_iff, agreeb_agree, forallb_forall.
+  intros i p. unfold phase_okb, phase_ok. rewrite !andb_true_iff, agreeb_agree, forallb_forall, modes_okb_spec.
+  split.
+  - intros [[H1 H2] H3]. split; [exact H1|]. split; [|exact H3].
+    intros n Hn. apply has_successful_runb_spec. apply H2. exact Hn.
+  - intros [H1 [H2 H3]]. split; [split; [exact H1|] | exact H3].
+    intros n Hn. apply has_successful_runb_spec. apply H2. exact Hn.
+Qed.
+
+Lemma entity_okb_spec : forall i e, entity_okb i e = true <-> entity_ok i e.
+Proof.
+  intros i e. unfold entity_okb, entity_ok. rewrite !andb_true_iff, agreeb_agree, forallb_forall, modes_okb_spec.
+  split.
+  - intros [[H1 H2] H3]. split; [exact H1|]. split; [|exact H3].
+    intros n Hn. apply has_successful_runb_spec. apply H2. exact Hn.
+  - intros [H1 [H2 H3]]. split; [split; [exact H1|] | exact H3].
+    intros n Hn. apply has_successful_runb_spec. apply H2. exact Hn.
+Qed.
+
+Lemma suite_okb_spec : forall i s, suite_okb i s = true <-> suite_ok i s.
+Proof.
+  intros i s. unfold suite_okb, suite_ok. rewrite andb_true_iff, agreeb_agree, forallb_forall.
   split; intros [H1 H2]; (split; [exact H1|]); intros n Hn; specialize (H2 n Hn).
   - apply orb_true_iff in H2 as [H2|H2].
     + left. apply has_successful_runb_spec. exact H2.
@@ -106,16 +123,10 @@ Lemma C20_holdsb_spec : forall i, C20_holdsb i = true <-> C20_holds i.
 Proof.
   intros i. unfold C20_holdsb, C20_holds. rewrite !andb_true_iff, !forallb_forall, no_dead_linksb_spec.
   split.
-  - intros [[[[H1 H2] H3] H4] H5]. repeat split.
-    + apply (proj1 (phase_okb_spec i p) (H1 p H)).
-    + apply (proj1 (phase_okb_spec i p) (H1 p H)).
-    + apply (proj1 (phase_okb_spec i p) (H1 p H)).
-    + apply (proj1 (suite_okb_spec i s) (H2 s H)).
-    + apply (proj1 (suite_okb_spec i s) (H2 s H)).
-    + apply (proj1 (suite_okb_spec i s) (H2 s H)).
-    + apply (proj1 (entity_okb_spec i e) (H3 e H)).
-    + apply (proj1 (entity_okb_spec i e) (H3 e H)).
-    + apply (proj1 (entity_okb_spec i e) (H3 e H)).
+  - intros [[[[H1 H2] H3] H4] H5]. split; [|split; [|split; [|split]]].
+    + intros p Hp. apply phase_okb_spec. apply H1. exact Hp.
+    + intros s Hs. apply suite_okb_spec. apply H2. exact Hs.
+    + intros e He. apply entity_okb_spec. apply H3. exact He.
     + intros t Ht. specialize (H4 t Ht). apply existsb_exists in H4 as [e [He E]].
       exists e. split; [exact He|]. apply String.eqb_eq. exact E.
     + exact H5.
